@@ -923,7 +923,34 @@ impl Property for C17 {
             sc.projects[0].targets.push(agg);
             args = vec!["allagg".into()];
         }
+        // a quarter of the cases: every member also captures a command whose process ends only
+        // once all members' commands are running, on a machine with 1-3 executor threads.
+        // Capturing is asynchronous, so this completes - unless something blocks a worker thread
+        // while it waits.
+        let mut cmd_ids: Vec<String> = vec![];
+        if rng.chance(25) {
+            let mut k = 0;
+            for t in &anti {
+                if let Some(tt) = sc.projects[t.0].targets.iter_mut().find(|x| x.name == t.1) {
+                    if tt.kind == Kind::Build {
+                        tt.input.push(Res::Cmd { key: format!("slow{}@C", k) });
+                        cmd_ids.push(format!("cmd:slow{}", k));
+                        k += 1;
+                    }
+                }
+            }
+        }
         let mut inv = standard_invocation(rng, &sc, args);
+        if cmd_ids.len() >= 2 {
+            inv.plan.gates.insert("C".into(), cmd_ids);
+            inv.plan.knobs.workers = rng.range(1, 3) as u32;
+        } else {
+            for p in sc.projects.iter_mut() {
+                for t in p.targets.iter_mut() {
+                    t.input.retain(|r| !matches!(r, Res::Cmd { key } if key.ends_with("@C")));
+                }
+            }
+        }
         inv.plan.gates.insert("A".into(), ids);
         // the never-ending build and root services need the signal to finish the run
         if inv.plan.events.is_empty() {
